@@ -48,9 +48,29 @@ class TlcResult:
         self.stdout = ""
         self.wall = 0.0
         self.complete = False
+        self.cached = False
 
-def run(module, cfg, workdir, workers=8, timeout=600, env=None, extra=(), heap=None, keep_stdout=True):
+CACHE = os.path.join(os.path.dirname(SPEC), "work", "tlc_cache")
+
+def _cache_key(module, cfg, extra):
+    """Model-side TLC runs (model check, enumeration, simulation with a fixed seed) are a pure function of the specification files,
+    the configuration and the arguments: they do not read /repo. Their output is kept and reused while none of these change."""
+    import hashlib, glob
+    h = hashlib.sha1()
+    for f in sorted(glob.glob(os.path.join(SPEC, "*.tla"))):
+        h.update(f.encode()); h.update(open(f, "rb").read())
+    h.update(open(cfg, "rb").read())
+    h.update(repr((module, list(extra))).encode())
+    return h.hexdigest()
+
+def run(module, cfg, workdir, workers=8, timeout=600, env=None, extra=(), heap=None, keep_stdout=True, cache=False):
     os.makedirs(workdir, exist_ok=True)
+    key = _cache_key(module, cfg, extra) if cache and not os.environ.get("VERIF_NO_TLC_CACHE") else None
+    if key and os.path.exists(os.path.join(CACHE, key, "done")):
+        res = _parse(open(os.path.join(CACHE, key, "tlc.out"), errors="replace").read(), TlcResult(), keep_stdout)
+        res.rc, res.cached = 0, True
+        res.wall = float(open(os.path.join(CACHE, key, "done")).read() or 0)
+        return res
     meta = os.path.join(workdir, "meta")
     shutil.rmtree(meta, ignore_errors=True)
     cmd = ["tlc", "-workers", str(workers), "-metadir", meta, "-cleanup", "-noGenerateSpecTE", "-config", cfg] + list(extra) + [module]
@@ -71,6 +91,16 @@ def run(module, cfg, workdir, workers=8, timeout=600, env=None, extra=(), heap=N
     res.wall = time.time() - t0
     res.timed_out = res.rc in (124, 137)
     text = open(outpath, errors="replace").read()
+    _parse(text, res, keep_stdout)
+    shutil.rmtree(meta, ignore_errors=True)
+    if key and not res.timed_out and not res.error and (res.complete or "-simulate" in extra or res.violated):
+        d = os.path.join(CACHE, key)
+        os.makedirs(d, exist_ok=True)
+        shutil.copyfile(outpath, os.path.join(d, "tlc.out"))
+        open(os.path.join(d, "done"), "w").write("%.1f" % res.wall)
+    return res
+
+def _parse(text, res, keep_stdout):
     if keep_stdout:
         res.stdout = text
     for mm in re.finditer(r"(\d[\d,]*) states generated.*?(\d[\d,]*) distinct states found", text):
@@ -87,7 +117,6 @@ def run(module, cfg, workdir, workers=8, timeout=600, env=None, extra=(), heap=N
         mm = re.search(r"(Error: .*(?:\n.*){0,12})", text)
         if mm and "Simulation" not in text[:0]:
             res.error = mm.group(1)
-    shutil.rmtree(meta, ignore_errors=True)
     return res
 
 def counterexample_hist(text):
